@@ -20,7 +20,10 @@ LeafTs(b) == {i \in TIdx : Templates[i].base = b /\ IsLeafT(i)}
 \* one another and contain '-', '.', '+', sparse versions, both states, other extensions)
 Variants(i) == {FirstString(i)} \cup
                UNION {{[FirstString(i) EXCEPT ![j] = NthConcrete(Templates[i].ph[j], n)] :
-                          n \in 2..(IF Raw.accept[Templates[i].ph[j]].any THEN 6 ELSE 4)} : j \in 3..Len(Templates[i].ph)}
+                          n \in 2..(IF Raw.accept[Templates[i].ph[j]].any THEN 6 ELSE 3)} : j \in 3..Len(Templates[i].ph)}
+               \* a group whose names are only 'oph' and 'oph-x' (whole-string order and segment order disagree on them)
+               \cup UNION {{[FirstString(i) EXCEPT ![j - 1] = NthConcrete(Templates[i].ph[j - 1], 4), ![j] = Raw.open_values[n]] : n \in 2..3} :
+                              j \in {jj \in 3..Len(Templates[i].ph) : Raw.accept[Templates[i].ph[jj]].any /\ ~Raw.accept[Templates[i].ph[jj - 1]].any}}
 Leaves(b) == UNION {Variants(i) : i \in LeafTs(b)}
 PrefixesOf(S) == UNION {{SubSeq(s, 1, n) : n \in 1..Len(s)} : s \in S}
 NearMiss(b) == { <<"junk">>, <<FirstConcrete(Templates[1].ph[1]), "zz">>,
@@ -36,5 +39,8 @@ Universe(name) ==
      ELSE IF kind = "all" THEN UNION {PrefixesOf(Leaves(bb)) : bb \in BaseTypes}
      ELSE {}
 UniverseNames == {b \o ":" \o k : b \in {bb \in BaseTypes : LeafTs(bb) # {}}, k \in {"complete", "leafonly", "noisy"}} \cup {"any:all"}
-UniverseSeq(name) == SetToSeq(Universe(name))
+\* evaluated once by TLC (constant-level, zero arity): never recompute a universe per state
+UniverseTable == [n \in UniverseNames |-> Universe(n)]
+UniverseSeqTable == [n \in UniverseNames |-> SetToSeq(UniverseTable[n])]
+UniverseSeq(name) == UniverseSeqTable[name]
 =============================================================================
